@@ -4,6 +4,7 @@ package rtcp
 
 // VpC09: one well-framed frame of a[0] octets whose packet type is a[1]
 // (0 = anything outside 200..207) and, when a[2] >= 0, whose count/FMT is a[2];
+// for XR frames an optional a[3] fixes the type of the first report block;
 // everything else symbolic.
 func VpC09(a []int) {
 	n := a[0]
@@ -16,6 +17,9 @@ func VpC09(a []int) {
 	}
 	if a[2] >= 0 {
 		vpAssume(int(b[0]&0x1f) == a[2])
+	}
+	if len(a) > 3 && n > 8 {
+		vpAssume(int(b[8]) == a[3])
 	}
 	if a[1] == 205 && n >= 16 {
 		vpAssume(b[0]&0x1f != 15 || (b[14] == 0 && b[15] <= 8))
